@@ -290,8 +290,16 @@ def verify(ops, sut, aux, mask, cache, stats=None):
         if spec.get("mode") == "raise":
             st("c15:peer-raised:" + op["m"])
             if is_select:
-                if not ("exc" in r and r["exc"][1] == "InfeasibleError"):
-                    return _fail(k, op, "solver exception did not surface as InfeasibleError from select()", r.get("exc") or r)
+                seen = r.get("exc")
+                if seen is None and op.get("consume") == "defer":
+                    # tolerated: a select() that defers its work may raise at first consumption instead
+                    items, complete = _items_of(ops, res, k)
+                    if isinstance(complete, dict):
+                        seen = complete.get("exc")
+                    elif not items and complete is False:
+                        continue   # abandoned before consumption: nothing observable
+                if not (seen is not None and seen[1] == "InfeasibleError"):
+                    return _fail(k, op, "solver exception did not surface as InfeasibleError from select()", seen or r)
             continue
         if "exc" in r:
             return _fail(k, op, "request raised although the peer answered", r["exc"])
@@ -328,15 +336,22 @@ def verify(ops, sut, aux, mask, cache, stats=None):
                         if not (n is not None and n["k"] == "var" and n["cls"] == "puan.variable"):
                             continue
                     exp[i] = vec[c]
+            is_tuple = isinstance(item, list) and item and item[0] == "tup" and len(item) == 4
             if is_select and a.get("only_leafs"):
                 st("c15:only_leafs-filter-checked")
-                got_d = item
-                got_z = got_st = None
+                # today the filtered result is the bare dictionary; a (dict, value, status) tuple would
+                # state the same thing – the property only pins *which ids* are kept
+                got_d = item[1] if is_tuple else item
             else:
-                if not (isinstance(item, list) and item[0] == "tup" and len(item) == 4):
+                if not is_tuple:
                     return _fail(k, op, f"result {j} is not a (solution, value, status) tuple", item)
-                got_d, got_z, got_st = item[1], item[2], item[3]
-                if got_z != z or got_st != stc:
+                got_d = item[1]
+            if is_tuple:
+                got_z, got_st = item[2], item[3]
+                # value and status are handed through untouched today; only plain numbers are compared so
+                # that a richer status type would not be an alarm
+                if (isinstance(got_z, int) and isinstance(z, int) and got_z != z) or \
+                        (isinstance(got_st, int) and isinstance(stc, int) and got_st != stc):
                     return _fail(k, op, f"result {j}: objective value / status not passed through", [got_z, got_st], [z, stc])
             if not (isinstance(got_d, list) and got_d[0] == "dict"):
                 return _fail(k, op, f"result {j}: solution is not a dictionary", got_d)
